@@ -1184,6 +1184,7 @@ func count(st *step, label string) {
 func main() {
 	core.ParseFlags()
 	node.Quiet()
+	node.DropEngineGoroutines() // see mc/node/tasks.go
 	buildPrefix()
 	if core.Thorough() {
 		maxDepth, mixedDepth, fullUntil = 4, 4, 2
